@@ -148,6 +148,7 @@ Lemma build_table_sb st adds r es st' :
 Proof.
   unfold EM.build_table. intros H Ha Hst. destruct (EM.has_dup _); [discriminate|].
   pose proof (place_bytes adds 0 Ha) as Hp. destruct (EM.place adds 0) as [placed size]. cbn [fst] in Hp.
+  destruct (_ <? _) in H; [discriminate|].
   destruct (EM.create_cached_vtable st _) as [[[vt_ref es1] st1]|] eqn:E1; [|discriminate].
   destruct (EM.create_table st1 placed size _ vt_ref) as [[[ref e1] st2]|] eqn:E2; [|discriminate].
   injection H as _ _ <-.
